@@ -251,15 +251,27 @@ func VH_C19_config_change() {
 	vrt.Unwind(400)
 	c1 := vhConfig(false)
 	c2 := c1
-	switch vrt.Choice("what-changes", 3) {
+	switch vrt.Choice("what-changes", 4) {
 	case 0:
 		c2.policy = "tiered_cold"
 		vrt.Assume(c1.policy != "")
 	case 1:
 		c2.drop = c1.drop + 1
-	default:
+	case 2:
 		c2.policy = "tiered_cold"
 		c2.drop = c1.drop + 1
+	default:
+		// only the tier list changes (a tier added, removed or moved to another disk), ttl days unchanged
+		switch vrt.Choice("tier-change", 3) {
+		case 0:
+			c2.days = append(append([]RotatePolicy{}, c1.days...), RotatePolicy{TTL: 240 * time.Hour, MoveTo: "archive"})
+		case 1:
+			vrt.Assume(len(c1.days) > 0)
+			c2.days = nil
+		default:
+			vrt.Assume(len(c1.days) > 0)
+			c2.days = []RotatePolicy{{TTL: c1.days[0].TTL, MoveTo: "warm"}}
+		}
 	}
 	db := vhNewConn()
 	vrt.Assert(vhRun(db, c1) == nil, "first-run-succeeds")
